@@ -26,8 +26,10 @@ Null == 0               \* a missing element
 NullList == <<-1>>      \* a missing list
 NullOut == <<"null">>   \* a missing entry of an expected result
 \* pool of elements: exact Cartesian (x, y, z, t); lower dimensions use a prefix
+\* (1-5 timelike, 6 the zero vector, 7 lightlike, 8 spacelike: none of 7, 8 is the zero vector)
 Elems == << <<I(3), I(4), I(12), I(85)>>, <<I(-9), I(12), I(-20), I(65)>>, <<I(1), I(2), I(2), I(7)>>,
-            <<I(1), I(-1), I(2), I(3)>>, <<I(5), I(1), I(-12), I(14)>>, <<I(0), I(0), I(0), I(0)>> >>
+            <<I(1), I(-1), I(2), I(3)>>, <<I(5), I(1), I(-12), I(14)>>, <<I(0), I(0), I(0), I(0)>>,
+            <<I(3), I(4), I(12), I(13)>>, <<I(3), I(-4), I(12), I(5)>> >>
 ZeroId == 6
 Vec(e, n) == [k \in 1..n |-> Elems[e][k]]
 ZeroVec(n) == [k \in 1..n |-> Zero]
@@ -58,11 +60,11 @@ Column(ll, j) == LET idx == { i \in 1..Len(ll) : ll[i] # NullList /\ Len(ll[i]) 
 
 \* ------------------------------------------------------------ reductions
 \* NumPy: regular 1-D / 2-D arrays (sequences of rows)
-NpArrays == { <<1, 2, 3>>, <<2>>, <<4, 5, 1, 2>>, <<6, 1, 6>> }
-NpMatrices == { << <<1, 2>>, <<3, 4>> >>, << <<1, 2, 3>>, <<4, 5, 6>> >>, << <<2>>, <<3>>, <<6>> >> }
+NpArrays == { <<1, 2, 3>>, <<2>>, <<4, 5, 1, 2>>, <<6, 1, 6>>, <<7, 6, 8>>, <<7, 7>> }
+NpMatrices == { << <<1, 2>>, <<3, 4>> >>, << <<1, 2, 3>>, <<4, 5, 6>> >>, << <<2>>, <<3>>, <<6>> >>, << <<7, 6>>, <<8, 1>> >> }
 \* Awkward: ragged, with empty and missing lists and missing elements
 Ragged == { << <<1, 2>>, <<>>, <<3>> >>, << <<1>>, NullList, <<2, 3, 4>> >>, << <<>>, <<>> >>,
-            << <<1, 6>>, <<6>>, <<2, 5, 6>> >>, << <<1, Null, 2>>, <<3>> >> }
+            << <<1, 6>>, <<6>>, <<2, 5, 6>> >>, << <<1, Null, 2>>, <<3>> >>, << <<7, 6>>, <<8>>, <<>> >> }
 NestedRagged == { << << <<1>>, <<>> >>, << <<2, 3>> >> >>, << << <<1, 2>>, <<3>> >>, <<>>, << <<4>> >> >> }
 
 ReduceCase(lib, arr, shape, op, axis, keepdims, dim, exp) ==
